@@ -501,6 +501,71 @@ fn stress_part() -> CustomPart {
     }
 }
 
+// ------------------------------------------------------------------ sequential prefix scans
+
+#[derive(Clone, Debug, Serialize, Deserialize)]
+struct ScanCase {
+    keys: Vec<Vec<u8>>,
+    /// (index of the key a prefix is cut from, number of characters) or a free-standing string
+    prefixes: Vec<(Option<(u8, u8)>, Vec<u8>)>,
+}
+
+/// Characters whose UTF-8 encoding ends in 0x7F / 0xBF (the byte after them is no valid
+/// continuation of the same length), their neighbours, and plain ASCII.
+const SCAN_CHARS: [char; 14] = ['a', 'b', 'x', 'z', '\u{7f}', '\u{80}', '\u{bf}', '\u{c0}', '\u{ff}', '\u{100}', '\u{208}', '\u{7ff}', '\u{800}', '\u{ffff}'];
+
+fn scan_string(codes: &[u8]) -> String {
+    codes.iter().map(|c| SCAN_CHARS[*c as usize % SCAN_CHARS.len()]).collect()
+}
+
+fn scan_strategy(_t: Tier) -> impl Strategy<Value = ScanCase> {
+    let word = || prop::collection::vec(0u8..SCAN_CHARS.len() as u8, 1..4);
+    (
+        prop::collection::vec(word(), 1..10),
+        prop::collection::vec((prop::option::weighted(0.6, (any::<u8>(), 1u8..3)), word()), 1..6),
+    )
+        .prop_map(|(keys, prefixes)| ScanCase { keys, prefixes })
+}
+
+/// One thread, no interleaving: a prefix scan (and its count) returns exactly the stored keys that
+/// start with the prefix - the sequential behaviour every concurrent history is measured against.
+fn scan_seq_check(c: &ScanCase, ctx: &mut CaseCtx) -> Result<(), Fail> {
+    let store = TensorStore::new();
+    let mut keys: BTreeSet<String> = BTreeSet::new();
+    for (i, k) in c.keys.iter().enumerate() {
+        let key = scan_string(k);
+        store.put(&key, value(&key, i as u32)).map_err(|e| Fail::new("harness", e.to_string()))?;
+        keys.insert(key);
+    }
+    let all: Vec<&String> = keys.iter().collect();
+    for (cut, free) in &c.prefixes {
+        let prefix: String = match cut {
+            Some((i, n)) => all[*i as usize % all.len()].chars().take(*n as usize).collect(),
+            None => scan_string(free),
+        };
+        let want: BTreeSet<String> = keys.iter().filter(|k| k.starts_with(&prefix)).cloned().collect();
+        let got: BTreeSet<String> = store.scan(&prefix).into_iter().collect();
+        let last = prefix.as_bytes().last().copied().unwrap_or(0);
+        if last == 0x7f || last == 0xbf {
+            ctx.label("prefix whose last byte has no same-length successor");
+            if keys.iter().any(|k| !k.starts_with(&prefix) && k.as_str() > prefix.as_str() && k.as_bytes()[0] >> 4 == prefix.as_bytes()[0] >> 4) {
+                ctx.set_nontrivial();
+            }
+        }
+        if got != want {
+            let extra: Vec<&String> = got.difference(&want).collect();
+            let missing: Vec<&String> = want.difference(&got).collect();
+            let kind = if !extra.is_empty() { "returns-non-matching-keys" } else { "misses-matching-keys" };
+            ctx.fail(format!("scan-seq:{kind}"), format!("scan({prefix:?}) over {keys:?}: extra {extra:?}, missing {missing:?}"))?;
+        }
+        let n = store.scan_count(&prefix);
+        if n != want.len() {
+            ctx.fail("scan-seq:count", format!("scan_count({prefix:?}) = {n}, {} keys start with it ({keys:?})", want.len()))?;
+        }
+    }
+    Ok(())
+}
+
 /// Real threads writing MANY DISTINCT keys of one class at once (first-time puts, overwrites, a
 /// few deletes), then a sequential read-back: what a key holds must be the last value its only
 /// writer gave it. Writes to different keys share allocators (embedding slots, cache slots, shard
@@ -598,7 +663,7 @@ fn main() {
     main_for(PropDef {
         id: "C11",
         level: "exploration",
-        rule: "lin: 2..5 (8) scripted threads of 1..5 put/get/delete/exists/scan ops on 1..3 contended keys of one key class (plain, emb: with a 384-dim vector whose every component and a sibling scalar carry the writer's tag, node:, table:, _cache:), every written value unique, plus a generated schedule; non-trivial = two operations on one key overlap in time and one is a write. durable: the same with put_durable/delete_durable and the store.durable.logged yield point; non-trivial = two overlapping durable writes to one key. stress: real threads on one key. stress_many: 4-8 real threads each writing 1200 distinct keys of one class (first puts, overwrites, deletes), sequential read-back afterwards. distinct = distinct generated case",
+        rule: "lin: 2..5 (8) scripted threads of 1..5 put/get/delete/exists/scan ops on 1..3 contended keys of one key class (plain, emb: with a 384-dim vector whose every component and a sibling scalar carry the writer's tag, node:, table:, _cache:), every written value unique, plus a generated schedule; non-trivial = two operations on one key overlap in time and one is a write. durable: the same with put_durable/delete_durable and the store.durable.logged yield point; non-trivial = two overlapping durable writes to one key. stress: real threads on one key. stress_many: 4-8 real threads each writing 1200 distinct keys of one class (first puts, overwrites, deletes), sequential read-back afterwards. scan_seq: one thread, 1-9 keys over an alphabet of ASCII and multi-byte characters (incl. those whose last UTF-8 byte is 0x7F / 0xBF), 1-5 prefixes cut from keys or free-standing; non-trivial = a prefix ending in such a byte with a greater non-matching key stored. distinct = distinct generated case",
         assumptions: vec![
             "the scheduler owns the interleaving at the store.emb.* / store.durable.logged hooks and at operation boundaries only; other windows are reached only by the probabilistic stress part",
             "embedding-class values carry a slab-dimension vector, a vector of another dimension (kept in metadata only) or none, as a function of the write's tag; what is read back must be exactly one write's value",
@@ -610,6 +675,7 @@ fn main() {
             PropPart::new("durable", 1500, 30_000, |t| case_strategy(t, false), durable_check).shrink_iters(300).boxed(),
             Box::new(stress_part()),
             Box::new(stress_many_part()),
+            PropPart::new("scan_seq", 30_000, 1_000_000, scan_strategy, scan_seq_check).boxed(),
         ],
         children: vec![],
     });
